@@ -82,7 +82,7 @@ theorem C10_no_overflow (sg : Bool) (b : Nat) (given : Rat) (hg : 0 ≤ given) (
 example : 0 < (NumT.int true 16).maxValue ∧ findScaleFactor (.int true 16) 0 [9453 / 100, -137 / 10] ≠ 0 := by
   constructor
   · norm_num [NumT.maxValue]
-  · norm_num [findScaleFactor, tmpScale, dataMax, dataMin, castToFloat, NumT.maxValue, NumT.minValue, NumT.isSigned]
+  · norm_num [findScaleFactor_int, tmpScale, dataMax, dataMin, castToFloat, NumT.maxValue, NumT.minValue, NumT.isSigned]
 
 /-- this is where the factor 1.01 is used: any positive scale factor `s'` with `s' ≥ computed/1.01` (the computed one
     rounded to `float`, or printed with 6 digits and read back) still cannot overflow. -/
@@ -132,13 +132,13 @@ theorem C10_no_overflow_fails_wide_unsigned (b : Nat) (hb : 32 ≤ b) (xs : List
 theorem C10_no_overflow_fails_uint32 :
     convertOne false 32 (findScaleFactor (.int false 32) 0 [1]) 1 = none := by
   have h := wide_unsigned_overflows 32 (le_refl _) [1] (by norm_num [dataMax])
-    (by norm_num [findScaleFactor, tmpScale, dataMax, castToFloat, NumT.maxValue, NumT.isSigned])
+    (by norm_num [findScaleFactor_int, tmpScale, dataMax, castToFloat, NumT.maxValue, NumT.isSigned])
   simpa [dataMax] using h
 
 theorem C10_conversion_as_coded_all_types_fails : ¬ C10_conversion_as_coded_all_types := by
   intro h
   have h1 := h false 32 0 [1] 1 (by norm_num) (le_refl _) (by simp) (by norm_num [NumT.maxValue])
-    (by norm_num [findScaleFactor, tmpScale, dataMax, castToFloat, NumT.maxValue, NumT.isSigned])
+    (by norm_num [findScaleFactor_int, tmpScale, dataMax, castToFloat, NumT.maxValue, NumT.isSigned])
   rw [C10_no_overflow_fails_uint32] at h1
   cases h1
 
@@ -204,7 +204,7 @@ theorem C10_write_succeeds_partial (sg : Bool) (b : Nat) (hmax : 0 < (NumT.int s
   write_succeeds_of_pos sg b hmax given hg rows hne hpos
 
 example : 0 < findScaleFactor (.int false 8) 0 ([[1, 2], [3, -4]] : List (List Rat)).flatten := by
-  norm_num [findScaleFactor, tmpScale, dataMax, castToFloat, NumT.maxValue, NumT.isSigned]
+  norm_num [findScaleFactor_int, tmpScale, dataMax, castToFloat, NumT.maxValue, NumT.isSigned]
 
 /-- **`write_data` fails whenever the scale factor is negative** (and `write_basic_interfile` ignores it) -/
 theorem C10_write_fails_negative_scale (sg : Bool) (b : Nat) (given : Rat) (row : List Rat) (rows : List (List Rat))
@@ -215,7 +215,7 @@ theorem C10_write_fails_negative_scale (sg : Bool) (b : Nat) (given : Rat) (row 
 /-- concrete witness: an all-negative image written as `unsigned char` with the automatic scale factor -/
 theorem C10_write_fails_unsigned_all_negative : (writeData (.int false 8) 0 [[-1, -2]]).2 = .error () := by
   apply write_fails_of_neg
-  norm_num [findScaleFactor, tmpScale, dataMax, castToFloat, NumT.maxValue, NumT.isSigned]
+  norm_num [findScaleFactor_int, tmpScale, dataMax, castToFloat, NumT.maxValue, NumT.isSigned]
 
 /-! ## Truncated data files -/
 
@@ -231,38 +231,45 @@ theorem C10_complete_file_accepted (offset sizeAll bytes fileLen : Nat) (h : off
 
 /-! ## Exam information -/
 
-/-- the full statement "every exam information survives" — false, see the two `…_fails` theorems below -/
+/-- the full statement "every exam information survives" — false: time frames of duration ≤ 0 are not written,
+    see `C10_exam_roundtrip_all_fails` -/
 def C10_exam_roundtrip_all : Prop :=
-  ∀ e : Exam, e.orientation ≤ 3 → e.rotation ≤ 5 → (∀ p ∈ e.frames, p.2 - p.1 > 0) →
-    readExam (writeExam e) none = e.normalised
+  ∀ e : Exam, e.orientation ≤ 3 → e.rotation ≤ 5 → readExam (writeExam e) none = e.normalised
 
 /-- "The exam information that the format stores (modality, patient position, time frames, radionuclide, energy window,
-    calibration factor) survives the round trip" — for every exam information that is `Storable` (no decubitus patient
-    rotation, no energy window with lower threshold 0, time frames of positive duration); radionuclide not in the data
-    base (a data-base hit returns the data-base record instead). -/
+    calibration factor) survives the round trip" — for every exam information whose time frames have positive duration
+    (`Storable`; the enum values must be valid); radionuclide not in the data base (a data-base hit returns the
+    data-base record instead). -/
 theorem C10_exam_roundtrip_partial (e : Exam) (h : e.Storable) : readExam (writeExam e) none = e.normalised :=
   exam_roundtrip e h
 
-example : Exam.Storable ⟨1, 1, 1, 5 / 2, 425, 650, [(41 / 2, 45), (50, 373 / 4)], "Verif-7", 2469 / 2, 1 / 2⟩ := by
+example : Exam.Storable ⟨1, 1, 3, 5 / 2, 0, 650, [(41 / 2, 45), (50, 373 / 4)], "Verif-7", 2469 / 2, 1 / 2⟩ := by
   constructor <;> simp
-  · norm_num
-  · norm_num
+  norm_num
 
-/-- **patient rotations `right`/`left` are read back as `other`** -/
-theorem C10_exam_rotation_fails (e : Exam) (h : e.rotation = 2 ∨ e.rotation = 3) (db : Option (Rat × Rat)) :
-    (readExam (writeExam e) db).rotation = 4 :=
-  rotation_lost e h db
+/-- every patient rotation — including the decubitus positions `right`/`left` — is read back unchanged
+    (was violated before repo commit 697526ee8: `old_rotation_lost`) -/
+theorem C10_exam_rotation_survives (e : Exam) (h : e.rotation ≤ 5) (db : Option (Rat × Rat)) :
+    (readExam (writeExam e) db).rotation = e.rotation :=
+  rotation_survives e h db
 
-/-- **an energy window `[0, high]` is written but read back as unset** -/
-theorem C10_exam_window_fails (e : Exam) (hh : e.highThres > 0) (hl : e.lowThres = 0) (db : Option (Rat × Rat)) :
+/-- an energy window `[0, high]` is written and read back (was violated before repo commit ccc9f5cdc:
+    `old_window_zero_lost`) -/
+theorem C10_exam_window_zero_survives (e : Exam) (hh : e.highThres > 0) (hl : e.lowThres = 0) (db : Option (Rat × Rat)) :
     (writeExam e).window = some (0, e.highThres) ∧
-      (readExam (writeExam e) db).lowThres = -1 ∧ (readExam (writeExam e) db).highThres = -1 :=
-  window_lost e hh hl db
+      (readExam (writeExam e) db).lowThres = 0 ∧ (readExam (writeExam e) db).highThres = e.highThres :=
+  window_zero_survives e hh hl db
 
+/-- regression witnesses for the two repaired defects (the old code, kept as separate definitions) -/
+theorem C10_exam_old_code_lost_rotation_and_window :
+    (writeRotationOld 2 = some 4 ∧ writeRotationOld 3 = some 4) ∧ ∀ hi : Rat, windowAcceptedOld 0 hi = false :=
+  ⟨old_rotation_lost, old_window_zero_lost⟩
+
+/-- a time frame of zero duration does not survive: it is not written, and read back as the default frame (0, 0) -/
 theorem C10_exam_roundtrip_all_fails : ¬ C10_exam_roundtrip_all := by
   intro h
-  have h1 := h ⟨1, 0, 3, -1, -1, -1, [], "", -1, -1⟩ (by norm_num) (by norm_num) (by simp)
-  have h2 := rotation_lost ⟨1, 0, 3, -1, -1, -1, [], "", -1, -1⟩ (Or.inr rfl) none
+  have h1 := h ⟨1, 0, 0, -1, -1, -1, [(5, 5)], "", -1, -1⟩ (by norm_num) (by norm_num)
+  have h2 := zero_duration_frame_lost ⟨1, 0, 0, -1, -1, -1, [(5, 5)], "", -1, -1⟩ 5 rfl none
   rw [h1] at h2
   simp [Exam.normalised] at h2
 
